@@ -11,12 +11,17 @@ COMMONS_INSTRUMENTED = ["csync", "semaphore", "cchan", "rollback"]
 FLOW = {"name": "flow", "pkg": "pkg/verifflow", "harness": "flow", "run": "^TestVerifFlow$", "instrument": True,
         "shards": 16, "shards_thorough": 16}
 
+V1_POINTS = ["pkg/lifecycle/stream/destination.go", "pkg/lifecycle/stream/destination_acker.go", "pkg/lifecycle/stream/source_acker.go"]
+V2_POINTS = ["pkg/lifecycle-poc/funnel/destination.go"]
+PREEMPT = {"name": "flow-preempt", "pkg": "pkg/verifflow", "harness": "flow", "run": "^TestVerifFlowPreempt$", "instrument": True,
+           "shards": 16, "shards_thorough": 16, "points": V1_POINTS + V2_POINTS}
+
 CHECKS = {
     "C01": {"parts": [FLOW]},
     "C02": {"parts": [FLOW]},
     "C03": {"parts": [FLOW]},
     "C04": {"parts": [FLOW]},
-    "C06": {"parts": [FLOW]},
+    "C06": {"parts": [FLOW, PREEMPT]},
     "C07": {"parts": [FLOW]},
     "C12": {"parts": [FLOW]},
     "C10": {"parts": [FLOW]},
